@@ -159,7 +159,9 @@ namespace pika::threads::detail {
 
             PIKA_ASSERT(thrd_data->get_state().state() == thread_schedule_state::active);
             PIKA_ASSERT(state != thread_schedule_state::active);
+            PIKA_VERIF_POINT("agent.yield", thrd_data, static_cast<int>(state), 0);
             statex = self_.yield(thread_result_type(state, invalid_thread_id));
+            PIKA_VERIF_POINT("agent.resumed", thrd_data, static_cast<int>(statex), 0);
             PIKA_ASSERT(
                 get_thread_id_data(id)->get_state().state() == thread_schedule_state::active);
         }
